@@ -77,9 +77,23 @@ def tlc_histories(ctx, ml, xs, ys, kinds):
     return hists, r
 
 
-BOX = {0: (-1.5, 2.5), 3: (-0.5, 5.5)}
+BOX = {0: (-1.0, 3.0), 3: (-0.5, 5.5)}      # one integral box (handed over as ints in some replays, as the repository's tests do), one fractional
 XVAL = {0: 0.0, 1: 0.75, 2: 1.0}
 YPT = {1: [0, 0, 0, 0, 0], 2: [1, 2, 1, 0, 2], 5: [2, 0, 2, 1, 1]}
+
+
+_q, _qv = q, qv
+
+
+def q(x):        # noqa: F811  (values are only compared for equality by EvolventObjTrace.tla: a non-finite result stays a token)
+    try:
+        return _q(x)
+    except ValueError:
+        return "nonfinite:" + repr(float(x))
+
+
+def qv(v):       # noqa: F811
+    return [q(t) for t in v]
 
 
 class Rec:
